@@ -289,9 +289,9 @@ func (in *Interp) concreteIndex(iv Value, n int) int {
 		}
 		k := in.branch(n+1, "", func(k int) *Term {
 			if k < n {
-				return in.ts.Eq(t, in.ts.BV(64, uint64(k)))
+				return in.intCmp("=", t, in.ts.BV(64, uint64(k)))
 			}
-			return in.ts.Or(in.ts.Mk("bvslt", SBool, t, in.ts.BV(64, 0)), in.ts.Mk("bvsge", SBool, t, in.ts.BV(64, uint64(n))))
+			return in.ts.Or(in.intCmp("bvslt", t, in.ts.BV(64, 0)), in.intCmp("bvsge", t, in.ts.BV(64, uint64(n))))
 		})
 		if k == n {
 			panic(&GoPanic{rt: fmt.Sprintf("index out of range [%s] with length %d", "symbolic", n), class: "rt:index"})
@@ -800,7 +800,7 @@ func (in *Interp) symBinop(op token.Token, a, b *Term, xt, yt types.Type) Value 
 			return ts.Mk("bvmul", a.sort, a, b)
 		case token.QUO, token.REM:
 			// Go panics on a zero divisor
-			zero := ts.Eq(b, ts.Const(b.sort, 0))
+			zero := in.intCmp("=", b, ts.Const(b.sort, 0))
 			if in.decide(zero) {
 				panic(rtPanic("rt:divide", "integer divide by zero"))
 			}
@@ -821,17 +821,17 @@ func (in *Interp) symBinop(op token.Token, a, b *Term, xt, yt types.Type) Value 
 		case token.SHR:
 			return ts.Mk(pick("bvashr", "bvlshr"), a.sort, a, b)
 		case token.EQL:
-			return ts.Eq(a, b)
+			return in.intCmp("=", a, b)
 		case token.NEQ:
-			return ts.Not(ts.Eq(a, b))
+			return ts.Not(in.intCmp("=", a, b))
 		case token.LSS:
-			return ts.Mk(pick("bvslt", "bvult"), SBool, a, b)
+			return in.intCmp(pick("bvslt", "bvult"), a, b)
 		case token.LEQ:
-			return ts.Mk(pick("bvsle", "bvule"), SBool, a, b)
+			return in.intCmp(pick("bvsle", "bvule"), a, b)
 		case token.GTR:
-			return ts.Mk(pick("bvsgt", "bvugt"), SBool, a, b)
+			return in.intCmp(pick("bvsgt", "bvugt"), a, b)
 		case token.GEQ:
-			return ts.Mk(pick("bvsge", "bvuge"), SBool, a, b)
+			return in.intCmp(pick("bvsge", "bvuge"), a, b)
 		}
 	}
 	panic(pathAbort{"unsupported: symbolic binop " + op.String() + " on " + a.sort.String()})
@@ -848,7 +848,46 @@ func (in *Interp) f2i(t *Term) *Term {
 	lim := ts.F64(9223372036854775808.0)
 	bad := ts.Or(ts.Mk("fp.isNaN", SBool, f), ts.Mk("fp.geq", SBool, f, lim), ts.Mk("fp.lt", SBool, f, ts.F64(-9223372036854775808.0)))
 	in.note("platform: float->int conversion of NaN/±Inf/out-of-range encoded as amd64 (0x8000000000000000)")
-	return ts.Ite(bad, ts.BV(64, 0x8000000000000000), ts.Mk("(_ fp.to_sbv 64) RTZ", SBV(64), f))
+	r := ts.Ite(bad, ts.BV(64, 0x8000000000000000), ts.Mk("(_ fp.to_sbv 64) RTZ", SBV(64), f))
+	// the same integer as a double: comparisons of converted values are
+	// decided in floating point, without the conversion
+	in.f2iSrc[r.id] = ts.Ite(bad, ts.F64(-9223372036854775808.0), ts.Mk("fp.roundToIntegral RTZ", SF64, f))
+	return r
+}
+
+// intCmp builds a signed 64-bit comparison, rewriting comparisons between
+// float->int conversions (and small constants) into floating point:
+// int64(x) op int64(y)  <=>  T(x) op T(y) where T(x) = trunc(x), or -2^63 when
+// the conversion saturates. op is "=", "bvslt", "bvsle", "bvsgt", "bvsge".
+func (in *Interp) intCmp(op string, a, b *Term) *Term {
+	ts := in.ts
+	fpOf := func(t *Term) *Term {
+		if f, ok := in.f2iSrc[t.id]; ok {
+			return f
+		}
+		if t.IsConst() && t.sort == SBV(64) {
+			v := signExt(t.cbits, 64)
+			if v > -(1<<53) && v < (1<<53) {
+				return ts.F64(float64(v))
+			}
+		}
+		return nil
+	}
+	_, aIs := in.f2iSrc[a.id]
+	_, bIs := in.f2iSrc[b.id]
+	if (aIs || bIs) && a.sort == SBV(64) && b.sort == SBV(64) {
+		fa, fb := fpOf(a), fpOf(b)
+		if fa != nil && fb != nil {
+			fop := map[string]string{"=": "fp.eq", "bvslt": "fp.lt", "bvsle": "fp.leq", "bvsgt": "fp.gt", "bvsge": "fp.geq"}[op]
+			if fop != "" {
+				return ts.Mk(fop, SBool, fa, fb)
+			}
+		}
+	}
+	if op == "=" {
+		return ts.Eq(a, b)
+	}
+	return ts.Mk(op, SBool, a, b)
 }
 
 func f2iConcrete(f float64) int64 {
